@@ -157,7 +157,9 @@ void rf_wavheader_init(rf_wavheader_t *wh, int sfreq, int num_channels,
 	memset(wh, 0, sizeof(*wh));
 
 	memcpy(wh->chunk_id, riff, 4);
-	wh->chunk_size = 12 + 18 + 12 + 8; // chunks: riff, fmt, fact, data
+	// chunks: riff, fmt, fact (float only), data
+	wh->chunk_size = (format == RF_WAVHEADER_FLOAT ? 12 + 18 + 12 + 8 :
+							 12 + 16 + 8);
 	memcpy(wh->format, wave, 4);
 
 	memcpy(wh->fmt_chunk_id, fmt, 4);
